@@ -300,6 +300,9 @@ func (g *Gen) c04gen(i int, ntypes int, hookFaults bool) *recGen {
 
 func (g *Gen) c04config(hookFaults bool) c04config {
 	c := c04config{namers: []string{"raw", "public"}, fileTypes: []string{"rec", "rec2"}}
+	if g.Chance(0.07) {
+		c.fileTypes = nil // a context built by hand, without any registered file type: every file type is unknown
+	}
 	ntypes := g.R.Intn(5)
 	for t := 0; t < ntypes; t++ {
 		c.order = append(c.order, t)
@@ -352,6 +355,9 @@ func c04run(g *Gen, c c04config, entry string, cls []string) {
 		fts := map[string]generator.FileType{}
 		for _, ft := range c.fileTypes {
 			fts[ft] = recFileType{fails, files}
+		}
+		if len(c.fileTypes) == 0 && len(c.order)%2 == 0 {
+			fts = nil
 		}
 		return &generator.Context{Namers: ns, Order: orderT, FileTypes: fts}
 	}
@@ -420,6 +426,9 @@ func c04run(g *Gen, c c04config, entry string, cls []string) {
 				cls = append(cls, "silent-generator")
 			}
 		}
+	}
+	if len(c.fileTypes) == 0 {
+		cls = append(cls, "context-without-file-types")
 	}
 	in := list(list(list(orderS...), atoms(c.namers), atoms(c.fileTypes), atoms(c.fails)), list(tsexp...))
 	g.Emit(entry, in, list(list(results...), boolS(anyErr)), cls...)
